@@ -105,6 +105,25 @@ def phase2(job):
     return {'target': target, 'mode': mode, 'results': res_out, 'error': None}
 
 
+def phase3(job):
+    """Retry one obligation (by name) with a longer time limit."""
+    target, mode, timeout, tier, name = job
+    import verify
+    prog = _G['prog']
+    try:
+        ex, spec, con = get_ex(target, mode, tier)
+        obls = [o for o in ex.obls if o.name == name][:1]
+        res = verify.discharge(obls, timeout)
+        out = []
+        for o, r in zip(obls, res):
+            out.append({'name': r.name, 'stable': stable(r.name), 'tags': r.tags, 'status': r.status, 'time': round(r.time, 4),
+                        'solver': r.solver + '+retry', 'where': r.where, 'kind': r.kind, 'fn': prog.short(r.fn), 'mode': mode,
+                        'reason': r.reason, 'model': r.model, 'probes': {}})
+        return {'target': target, 'mode': mode, 'results': out, 'error': None}
+    except Exception as e:
+        return {'target': target, 'mode': mode, 'results': [], 'error': str(e)}
+
+
 def load_known():
     p = os.path.join(ROOT, 'known_findings.json')
     if os.path.exists(p):
@@ -175,6 +194,28 @@ def main():
         # heavy functions first
         jobs.sort(key=lambda j: -next(o['n'] for o in outs if o['target'] == j[0] and o['mode'] == j[1]))
         outs2 = pool.map(phase2, jobs, chunksize=1)
+        # an `unknown` (time-out) on an obligation that the baseline says is provable is retried alone with a longer
+        # time limit before it is believed (solver time-outs under full CPU load must not raise alarms)
+        base_names = set(load_baseline().get(pid, []))
+        retry = []
+        for o2 in outs2:
+            for r in o2['results']:
+                if r['status'] == 'unknown' and r['stable'] in base_names:
+                    retry.append((o2['target'], o2['mode'], r['name']))
+        if retry:
+            jobs3 = []
+            for (t, m, nm) in retry:
+                jobs3.append((t, m, timeout * 3, a.tier, nm))
+            outs3 = pool.map(phase3, jobs3[:40], chunksize=1)
+            fixed = {}
+            for o3 in outs3:
+                for r in o3['results']:
+                    fixed[(o3['target'], o3['mode'], r['name'])] = r
+            for o2 in outs2:
+                for i, r in enumerate(o2['results']):
+                    k3 = (o2['target'], o2['mode'], r['name'])
+                    if k3 in fixed and fixed[k3]['status'] == 'unsat':
+                        o2['results'][i] = fixed[k3]
     bykey = {(o['target'], o['mode']): o for o in outs}
     for o2 in outs2:
         o = bykey[(o2['target'], o2['mode'])]
@@ -222,6 +263,7 @@ def main():
         print('baseline for %s: %d obligations' % (pid, len(baseline[pid])))
     base = set(baseline.get(pid, []))
     exit_code = 0
+    unclaimed = set()
     lines = []
     known_hit = []
     os.makedirs(os.path.join(ROOT, 'replays', pid), exist_ok=True)
@@ -252,8 +294,14 @@ def main():
         if base and s not in base and not a.write_baseline and not is_known:
             # never passed on the committed baseline: a hole in the machinery, not a verdict about the code
             lines.append('UNDECIDED (not in baseline, not claimed): %s [%s]' % (s, bad['status']))
+            unclaimed.add(s)
             continue
         violations.append(dict(bad, stable=s))
+    if unclaimed:
+        # obligations that never passed are not part of the claim: they are reported, not counted
+        nun = sum(len(by_stable[u]) for u in unclaimed)
+        nobl -= nun
+        discharged -= sum(1 for u in unclaimed for r in by_stable[u] if r['status'] == 'unsat')
     import replay
     nviol = 0
     for v in violations:
